@@ -283,8 +283,7 @@ def check(prop, tier):
 def judge(prop, out, traces, canary, verdicts, st):
     byid = {t["id"]: t for t in traces}
     cv = accept.final_verdict(verdicts[canary["id"]])
-    if cv["v"] != "MISMATCH":
-        raise MachineryError("canary (corrupted observation) was not rejected: %s" % cv)
+    canary_bad = None if cv["v"] == "MISMATCH" else "canary (corrupted observation) was not rejected: %s" % cv
     keys = set()
     counts = {"ACCEPT": 0, "MISMATCH": 0, "FOREIGN": 0, "STUCK": 0}
     events = 0
@@ -314,6 +313,8 @@ def judge(prop, out, traces, canary, verdicts, st):
                 adopted += 1
             if nontrivial(prop, v.get("seen", [])):
                 keys.add(trace_key(t))
+    if canary_bad and not out.violations:     # (corrupting an observation that is itself wrong can make it right)
+        raise MachineryError(canary_bad)
     out.cov["evaluations"] = events
     out.cov["distinct_nontrivial"] = len(keys)
     out.cov["rule"] = {
